@@ -10,6 +10,7 @@ import (
 	"fmt"
 	"io"
 	"math/big"
+	"os"
 	"runtime/debug"
 	"sort"
 	"strings"
@@ -1762,7 +1763,14 @@ func (s *session) teardown() {
 		// the follower's database stays open: goroutines of this manager may still use it
 		return
 	}
+	t1 := time.Now()
+	if d := t1.Sub(t0); d > time.Second && os.Getenv("VERIF_C15_DEBUG") != "" {
+		fmt.Fprintf(os.Stderr, "C15 slow Stop: %v\n", d)
+	}
 	ok, g := waitNone(managerActive)
+	if d := time.Since(t1); d > time.Second && os.Getenv("VERIF_C15_DEBUG") != "" {
+		fmt.Fprintf(os.Stderr, "C15 slow quiesce: %v\n%s\n", d, slowest)
+	}
 	if !ok {
 		inconclusive(s.c, "manager goroutines still running after Stop", g)
 		return
